@@ -21,13 +21,13 @@ type e2spec struct {
 	configs int
 	cases   int
 	maxS    float64
-	nenum   int // C05: configurations of the exhaustive small-graph family (12 shapes x 4^3 scope assignments = 768)
+	nenum   int // C05: configurations of the exhaustive small-graph family (13 shapes x 4^3 scope assignments = 832)
 }
 
 var engine2Tiers = map[string]map[string]e2spec{
-	"C05": {"quick": {28, 16000, 150, 216}, "thorough": {96, 300000, 1500, 768}},
+	"C05": {"quick": {28, 16000, 150, 234}, "thorough": {96, 300000, 1500, 832}},
 	"C15": {"quick": {32, 9600, 150, 0}, "thorough": {96, 200000, 1500, 0}},
-	"C20": {"quick": {28, 16000, 200, 148}, "thorough": {64, 300000, 1800, 576}},
+	"C20": {"quick": {28, 16000, 200, 156}, "thorough": {64, 300000, 1800, 640}},
 }
 
 // e2Violation mirrors the fields of rsim.Violation the driver needs.
@@ -447,7 +447,7 @@ func report2(o opts, s *prep.Scratch, probe string, g genOut, m1 *merged, m2 *e2
 	case "C20":
 		cov["enumerated_family_members"] = fmt.Sprintf("%d configurations of the small-graph family of C05 (bare values, decorators, tags, every scope assignment) are part of the batch", engine2Tiers["C20"][o.tier].nenum)
 	case "C05":
-		cov["exhaustive_subspace"] = fmt.Sprintf("%d configurations of the enumerated family (12 small shapes: argument chain, field+call fan-out, tag edge, decorator edge, two decorators on two tags in both orders, chain ending in a scoped todo placeholder, decorated bare value with typed getters, two calls injecting b and c, a tag consumed only by a decorator argument, one decorator function twice on a tag with different arguments, a decorator on the tag star; every third member also with a reference to an undefined service under --ignore-missing-services, every fifth built with --stub) x scope assignments {unset,shared,contextual,non_shared}^3 (768 in the thorough tier = the whole family) had their verdict compared with the legality model and, if accepted, were run under drawn histories", engine2Tiers["C05"][o.tier].nenum)
+		cov["exhaustive_subspace"] = fmt.Sprintf("%d configurations of the enumerated family (13 small shapes: argument chain, field+call fan-out, tag edge, decorator edge, two decorators on two tags in both orders, chain ending in a scoped todo placeholder, decorated bare value with typed getters, two calls injecting b and c, a tag consumed only by a decorator argument, one decorator function twice on a tag with different arguments, a decorator on the tag star, a diamond with an onlooker that sorts first; every third member also with a reference to an undefined service under --ignore-missing-services, every fifth built with --stub) x scope assignments {unset,shared,contextual,non_shared}^3 (832 in the thorough tier = the whole family) had their verdict compared with the legality model and, if accepted, were run under drawn histories", engine2Tiers["C05"][o.tier].nenum)
 	}
 	ev := &Evidence{PropertyID: o.prop, Tier: o.tier, Seed: int64(o.seed), Level: "exploration", Coverage: cov, Assumptions: assumptions2[o.prop], WallS: wall, Violations: newViol}
 	if evals == 0 {
